@@ -574,7 +574,7 @@ fn gen_world_and_cmd(seed: u64) -> (CliWorld, Cmd) {
   let mut r = Rng::stream(seed, "world");
   let w = cli_world::gen_world(
     &mut r,
-    &GenOpts { max_files: 14, allow_special: true, with_tests: false, fix_heavy: false, order_sensitive_rules: false, hard_links: true },
+    &GenOpts { max_files: 14, allow_special: true, with_tests: false, fix_heavy: false, order_sensitive_rules: false, hard_links: true, injections: true },
   );
   let cmd = gen_cmd(&mut r, &w);
   let mut w = w;
@@ -758,6 +758,9 @@ impl Simulation for C17Sim {
       if let Some(o) = &po.observed {
         if !o.records.is_empty() {
           r.count("probe:runs_with_findings");
+        }
+        if w.injections > 0 && o.records.iter().any(|x| (x.contains(".ts\"") || x.contains(".js\"")) && (x.contains("\"language\":\"Css\"") || x.contains("\"language\":\"Html\""))) {
+          r.count("probe:runs_with_findings_in_documents_injected_by_sgconfig");
         }
         if o.errors.unwrap_or(0) > 0 {
           r.count("probe:runs_with_error_exit");
